@@ -31,6 +31,17 @@ theorem token_positions (u : Uni) (src : List Char) (r : LexResult) (h : lex u s
       obtain ⟨_, h2, h3, h4⟩ := htile.items_ok _ hit
       exact ⟨h4, h2, h3⟩
 
+/-- **A token stands at column 1 exactly when it is the first thing on its line**: its first raw character is the
+first character of the file or directly follows a newline character — for every source text (the rules that compare
+a column with 1, e.g. "one instruction per line", therefore test what they claim to test). -/
+theorem column_one_iff_line_start (u : Uni) (src : List Char) (r : LexResult) (h : lex u src = .ok r) :
+    ∀ t ∈ r.tokens, (t.col = 1 ↔ (t.start = 0 ∨ src[t.start - 1]? = some '\n')) := by
+  intro t ht
+  obtain ⟨hpos, hlt, hle⟩ := token_positions u src r h t ht
+  have hc : t.col = (visualPos src t.start).2 := congrArg Prod.snd hpos
+  rw [hc]
+  exact visualPos_col_one src t.start (by omega)
+
 /-- Tokens appear in source order and never overlap. -/
 theorem tokens_ordered (u : Uni) (src : List Char) (r : LexResult) (h : lex u src = .ok r) :
     r.items.Pairwise (fun a b => a.stop ≤ b.start) := by
